@@ -232,6 +232,21 @@ pub fn handle(op: &str, a: &[&str]) -> Option<Resp> {
                 if show_lossy(&whole) != want {
                     fail = Some(format!("lossy from_reader differs from from_str: {} vs {}", show_lossy(&whole), want).chars().take(400).collect());
                 }
+                // a fault in the stream: interrupted once (retried, same answer) / hard error (an error)
+                if fail.is_none() && s.len() <= 4096 {
+                    let b = s.as_bytes();
+                    for at in [0usize, b.len() / 2, b.len()] {
+                        let r = lossy::Deb822::from_reader(crate::deb::Faulty { data: b, at, hard: false, pos: 0, fired: false });
+                        if show_lossy(&r) != want {
+                            fail = Some(format!("lossy from_reader over a reader interrupted once at byte {} differs from from_str", at));
+                            break;
+                        }
+                        if at < b.len() && lossy::Deb822::from_reader(crate::deb::Faulty { data: b, at, hard: true, pos: 0, fired: false }).is_ok() {
+                            fail = Some(format!("lossy from_reader returns a document although the reader failed at byte {}", at));
+                            break;
+                        }
+                    }
+                }
                 if fail.is_none() && !s.is_ascii() {
                     for step in [1usize, 3] {
                         let r = lossy::Deb822::from_reader(crate::deb::Dribble { data: s.as_bytes(), step });
